@@ -154,6 +154,7 @@ class Chain:
         try: r, m, dt, used = s.S.query(s.base + [z3.Not(goal)], s.tm, s.direct_solver, s.vars)
         except z3.Z3Exception: r, dt, used = 'unknown', 0.0, s.direct_solver
         if r == 'unsat': done(r, dt, used, ''); return True
+        s.tm = min(s.tm, s.S.cap(20, 60))          # something is wrong with this function: the remaining direct queries get a short budget (the job must end inside its cap)
         # not proved: look for a ROBUST counterexample first (bounded inputs, the atom violated by a margin) - nlsat otherwise returns models that violate an equality by 1e-9 and do not
         # survive the float replay.  The extra constraints only narrow the search; any model is a counterexample of the unrestricted obligation.
         hy = s.base
@@ -173,11 +174,23 @@ class Chain:
         for label, g in spec(s.i, s.o):
             rc = (recipes or {}).get(label, {})
             s._final('%s.%s' % (s.name, label), goal_term(g), 'spec', rc.get('use', ()), rc.get('hyps', ()), rc.get('gen', ()), (spec, label), timeout, solver, rgoal=g if isinstance(g, _RGoal) else None)
+    def twins(s, mutant):
+        """deliberately wrong goals that must be satisfiable (thorough tier): guards against vacuous hypotheses"""
+        if mutant is None or s.S.quick: return
+        for label, g in mutant(s.i, s.o):
+            s.S.prove('%s.twin.%s' % (s.name, label), goal_term(g), s.base, timeout=s.tm, solver='z3', kind='mutant-twin', functions=s.fnlist, bounds=s.binfo, expect='sat', mandatory=False, vars_=s.vars)
     def side(s, recipe=None, timeout=None, solver='nra'):
         """the executor's own obligations (sqrt of a negative, division by zero ...), one by one; recipe(kind, descr, cond, k) -> dict(use, hyps, gen) | None"""
         for k, (kind, cond, d) in enumerate(s.res.obligations):
             rc = (recipe(kind, d, cond, k) if recipe else None) or {}
             s._final('%s.%s[%s]#%d' % (s.name, kind, d[:60], k), z3.Not(cond), kind, rc.get('use', ()), rc.get('hyps', ()), rc.get('gen', ()), None, timeout, solver)
+def rcheck(S, fname, spec, pre=None, *, name=None, bounds='', timeout=None, mutant=None, side=True, witness=True, extra_hyps=None, ins=None, mandatory=True, solver='nra', mode='real'):
+    """check_fn for rounding-erased obligations without a lemma chain: direct queries, robust counterexample search, native replay (see Chain._final)"""
+    C = Chain(S, fname, name=name, pre=pre, bounds=bounds, timeout=timeout, extra_hyps=extra_hyps, ins=ins, witness=witness, mandatory=mandatory, direct_solver=solver)
+    if C.res is None: return None
+    if side: C.side()
+    C.goals(spec); C.twins(mutant)
+    return C
 def normalize_shape(C, k, V, out, tag, pos_use=(), pos_hyps=(), gen=()):
     """the code's k-th square root is sqrt(V.V) and `out` (real terms) is V / sqrt(V.V): establishes facts  tag.arg: argument == V.V,  tag.spos: root > 0
     (given fact(s) pos_use / hypotheses pos_hyps that imply V.V > 0 literally),  tag.out<j>: out[j] * root == V[j],  tag.unit: out.out == 1.
@@ -204,31 +217,31 @@ def job_core_real(t, L):
     s = '_v%d_%s' % (L, t)
     def run(S):
         tm = S.cap(60, 200)
-        S.check_fn(U, 'dot' + s, lambda i, o: [('sum-of-products', REq(o[0][0].r, rdot(i[0], i[1])))], mode='real', timeout=tm,
+        rcheck(S, 'dot' + s, lambda i, o: [('sum-of-products', REq(o[0][0].r, rdot(i[0], i[1])))], mode='real', timeout=tm,
                    mutant=lambda i, o: [('m', REq(o[0][0].r, rdot(i[0], i[1]) - i[0][L - 1] * i[1][L - 1]))], bounds='all real vectors')
-        S.check_fn(U, 'length' + s, lambda i, o: [('nonneg', RGoal('ge', o[0][0].r, 0)), ('square', REq(o[0][0].r * o[0][0].r, rdot(i[0], i[0])))], mode='real', timeout=tm, bounds='all real vectors')
+        rcheck(S, 'length' + s, lambda i, o: [('nonneg', RGoal('ge', o[0][0].r, 0)), ('square', REq(o[0][0].r * o[0][0].r, rdot(i[0], i[0])))], mode='real', timeout=tm, bounds='all real vectors')
         def dspec(i, o):
             d = rsub(i[0], i[1])
             return [('nonneg', RGoal('ge', o[0][0].r, 0)), ('square', REq(o[0][0].r * o[0][0].r, rdot(d, d))), ('eq-length-of-difference', REq(o[0][0].r, o[0][1].r))]
-        S.check_fn(U, 'distance' + s, dspec, mode='real', timeout=tm, bounds='all real vectors')
+        rcheck(S, 'distance' + s, dspec, mode='real', timeout=tm, bounds='all real vectors')
         def nspec(i, o):
             r = R(o[0]); v = i[0]
             return [('unit', REq(rdot(r, r), 1)), ('same-direction', RGoal('gt', rdot(r, v), 0))] + [('parallel%d%d' % (p, q), REq(r[p] * v[q], r[q] * v[p])) for p, q in pairs(L)]
-        S.check_fn(U, 'normalize' + s, nspec, lambda i: [rdot(i[0], i[0]) > 0], mode='real', timeout=tm, bounds='all real v != 0',
+        rcheck(S, 'normalize' + s, nspec, lambda i: [rdot(i[0], i[0]) > 0], mode='real', timeout=tm, bounds='all real v != 0',
                    mutant=lambda i, o: [('m', RGoal('lt', rdot(R(o[0]), i[0]), 1))])
         def ffspec(i, o):
             N, I, Nref = i; d = rdot(Nref, I)
             return [('c%d' % k, REq(o[0][k].r, z3.If(d < 0, N[k], -N[k]))) for k in range(L)]
-        S.check_fn(U, 'faceforward' + s, ffspec, mode='real', timeout=tm, bounds='all real vectors',
+        rcheck(S, 'faceforward' + s, ffspec, mode='real', timeout=tm, bounds='all real vectors',
                    mutant=lambda i, o: [('m', REq(o[0][0].r, z3.If(rdot(i[2], i[1]) <= 0, i[0][0], -i[0][0])))])
         def rfspec(i, o):
             I, N = i; d = rdot(N, I)
             return [('formula%d' % k, REq(o[0][k].r, I[k] - 2 * d * N[k])) for k in range(L)]
-        S.check_fn(U, 'reflect' + s, rfspec, mode='real', timeout=tm, bounds='all real vectors',
+        rcheck(S, 'reflect' + s, rfspec, mode='real', timeout=tm, bounds='all real vectors',
                    mutant=lambda i, o: [('m', REq(o[0][0].r, i[0][0] - rdot(i[1], i[0]) * i[1][0]))])
         unitN = lambda i: [rdot(i[1], i[1]) == 1]
-        S.check_fn(U, 'reflect' + s, lambda i, o: [('length-preserving', REq(rdot(R(o[0]), R(o[0])), rdot(i[0], i[0])))], unitN, mode='real', timeout=tm, name='c12.reflect%s.unitN' % s, bounds='all real I, unit N', side=False)
-        S.check_fn(U, 'reflect2' + s, lambda i, o: [('involution%d' % k, REq(o[0][k].r, i[0][k])) for k in range(L)], unitN, mode='real', timeout=tm, bounds='all real I, unit N')
+        rcheck(S, 'reflect' + s, lambda i, o: [('length-preserving', REq(rdot(R(o[0]), R(o[0])), rdot(i[0], i[0])))], unitN, mode='real', timeout=tm, name='c12.reflect%s.unitN' % s, bounds='all real I, unit N', side=False)
+        rcheck(S, 'reflect2' + s, lambda i, o: [('involution%d' % k, REq(o[0][k].r, i[0][k])) for k in range(L)], unitN, mode='real', timeout=tm, bounds='all real I, unit N')
         # refract: Snell's law for unit I, N and eta > 0
         def kk(i): d = rdot(i[1], i[0]); return 1 - i[2][0] * i[2][0] * (1 - d * d)
         pre_t = lambda i: [rdot(i[0], i[0]) == 1, rdot(i[1], i[1]) == 1, i[2][0] > 0, kk(i) >= 0]
@@ -237,21 +250,27 @@ def job_core_real(t, L):
             g = [('tangential%d' % k, REq(r[k] - rn * N[k], eta * (I[k] - d * N[k]))) for k in range(L)]
             g += [('unit', REq(rdot(r, r), 1)), ('into-surface', RGoal('le', rn, 0)), ('normal-part', REq(rn * rn, kk(i)))]
             return g
-        S.check_fn(U, 'refract' + s, lambda i, o: [g for g in snell(i, o) if g[0] != 'unit'], pre_t, mode='real', timeout=tm, name='c12.refract%s.transmit' % s, bounds='unit I, unit N, eta > 0, k >= 0',
-                   mutant=lambda i, o: [('m', RGoal('ge', rdot(R(o[0]), i[1]), 0))])
-        C = Chain(S, 'refract' + s, name='c12.refract%s.transmit' % s, pre=pre_t, timeout=S.cap(150, 400), bounds='unit I, unit N, eta > 0, k >= 0', witness=False, direct_solver='qfnra')
-        if C.res is not None:       # |r|^2 = eta^2 |I|^2 - 2 eta c d + c^2 |N|^2 with c = eta d + sqrt(k), d = N.I;  = eta^2 (1 - d^2) + k = 1 for unit I, N
+        C = Chain(S, 'refract' + s, name='c12.refract%s.transmit' % s, pre=pre_t, timeout=tm, bounds='unit I, unit N, eta > 0, k >= 0', direct_solver='qfnra')
+        if C.res is not None and len(C.sq) == 1:
+            # r = eta I - c N with c = eta d + sqrt(k), d = N.I:  |r|^2 = eta^2 |I|^2 - 2 eta c d + c^2 |N|^2 = eta^2 (1 - d^2) + k = 1  and  r.N = eta d - c |N|^2 = -sqrt(k)  for unit I, N
             I, N, eta = C.i[0], C.i[1], C.i[2][0]; r = R(C.o[0]); A, sv, ax = C.sqrt_ax(0); d = rdot(N, I); c_ = eta * d + sv; f = [eta * I[k] - c_ * N[k] for k in range(L)]
-            II = rdot(I, I); NN = rdot(N, N); rr = rdot(r, r); ff = rdot(f, f)
-            C.lemma('k', A == 1 - eta * eta * (1 - d * d))
+            II = rdot(I, I); NN = rdot(N, N); rr = rdot(r, r); ff = rdot(f, f); rN = rdot(r, N); fN = rdot(f, N); K = kk(C.i); outs = ['out%d' % k for k in range(L)]
+            C.lemma('k', A == K)
             for k in range(L): C.lemma('out%d' % k, r[k] == f[k], hyps=C.pre[3:])       # under k >= 0 the select takes the formula branch
-            C.lemma('rr', rr == ff, use=['out%d' % k for k in range(L)], gen=r + f)
+            C.lemma('rr', rr == ff, use=outs, gen=r + f)
             C.lemma('expand', ff == eta * eta * II - 2 * eta * c_ * d + c_ * c_ * NN, gen=[c_])
-            C.goals(lambda i, o: [g for g in snell(i, o) if g[0] == 'unit'], {'unit': dict(use=['k', 'rr', 'expand'], hyps=ax + C.pre[:2], gen=[rr, ff, A, II, NN, d])})
+            C.lemma('rN', rN == fN, use=outs, gen=r + f)
+            C.lemma('fN', fN == eta * d - c_ * NN, gen=[c_])
+            C.side(lambda kind, dsc, cond, k: dict(use=['k'], hyps=C.pre[3:], gen=[A, K]))
+            C.goals(snell, {'unit': dict(use=['k', 'rr', 'expand'], hyps=ax + C.pre[:2], gen=[rr, ff, A, II, NN, d]),
+                            'normal-part': dict(use=['k', 'rN', 'fN'], hyps=ax + C.pre[1:2], gen=[rN, fN, K, A, NN, d]),
+                            'into-surface': dict(use=['rN', 'fN'], hyps=ax + C.pre[1:2], gen=[rN, fN, A, NN, d])})
+            C.twins(lambda i, o: [('m', RGoal('ge', rdot(R(o[0]), i[1]), 0))])
+        elif C.res is not None: C.side(); C.goals(snell)
         # (k < 0 cannot be examined in real mode: the model's sqrt axiom y*y == k has no real solution; the bit-precise jobs fp_* decide that half)
         # gtx norm
-        S.check_fn(U, 'length2' + s, lambda i, o: [('sum-of-squares', REq(o[0][0].r, rdot(i[0], i[0])))], mode='real', timeout=tm, bounds='all real vectors')
-        S.check_fn(U, 'distance2' + s, lambda i, o: [('sum-of-squares', REq(o[0][0].r, rdot(rsub(i[0], i[1]), rsub(i[0], i[1]))))], mode='real', timeout=tm, bounds='all real vectors')
+        rcheck(S, 'length2' + s, lambda i, o: [('sum-of-squares', REq(o[0][0].r, rdot(i[0], i[0])))], mode='real', timeout=tm, bounds='all real vectors')
+        rcheck(S, 'distance2' + s, lambda i, o: [('sum-of-squares', REq(o[0][0].r, rdot(rsub(i[0], i[1]), rsub(i[0], i[1]))))], mode='real', timeout=tm, bounds='all real vectors')
         if L >= 2:
             def pspec(i, o):
                 x, n = i; p = R(o[0]); q = R(o[1])
@@ -260,7 +279,7 @@ def job_core_real(t, L):
                 g += [('perp-complement-parallel%d%d' % (a_, b_), REq((x[a_] - q[a_]) * n[b_], (x[b_] - q[b_]) * n[a_])) for a_, b_ in pairs(L)]
                 g += [('proj+perp%d' % k, REq(p[k] + q[k], x[k])) for k in range(L)]
                 return g
-            S.check_fn(U, 'proj' + s, pspec, lambda i: [rdot(i[1], i[1]) > 0], mode='real', timeout=tm, bounds='all real x, Normal != 0',
+            rcheck(S, 'proj' + s, pspec, lambda i: [rdot(i[1], i[1]) > 0], mode='real', timeout=tm, bounds='all real x, Normal != 0',
                        mutant=lambda i, o: [('m', REq(rdot(R(o[0]), i[1]), 0))])
     return run
 
@@ -268,17 +287,17 @@ def job_core_real(t, L):
 def job_scalar_real(t):
     def run(S):
         tm = S.cap(60, 200); x = lambda i, k=0: i[0][k]
-        S.check_fn(U, 's_dot_' + t, lambda i, o: [('product', REq(o[0][0].r, i[0][0] * i[0][1]))], mode='real', timeout=tm, bounds='all reals')
-        S.check_fn(U, 's_length_' + t, lambda i, o: [('abs', REq(o[0][0].r, rabs(i[0][0])))], mode='real', timeout=tm, bounds='all reals')
-        S.check_fn(U, 's_distance_' + t, lambda i, o: [('abs-difference', REq(o[0][0].r, rabs(i[0][0] - i[0][1])))], mode='real', timeout=tm, bounds='all reals')
-        S.check_fn(U, 's_length2_' + t, lambda i, o: [('square', REq(o[0][0].r, i[0][0] * i[0][0]))], mode='real', timeout=tm, bounds='all reals')
-        S.check_fn(U, 's_distance2_' + t, lambda i, o: [('square-difference', REq(o[0][0].r, (i[0][0] - i[0][1]) * (i[0][0] - i[0][1])))], mode='real', timeout=tm, bounds='all reals')
-        S.check_fn(U, 's_faceforward_' + t, lambda i, o: [('decision', REq(o[0][0].r, z3.If(i[2][0] * i[1][0] < 0, i[0][0], -i[0][0])))], mode='real', timeout=tm, bounds='all reals')
-        S.check_fn(U, 's_reflect_' + t, lambda i, o: [('formula', REq(o[0][0].r, i[0][0] - 2 * (i[1][0] * i[0][0]) * i[1][0]))], mode='real', timeout=tm, bounds='all reals')
+        rcheck(S, 's_dot_' + t, lambda i, o: [('product', REq(o[0][0].r, i[0][0] * i[0][1]))], mode='real', timeout=tm, bounds='all reals')
+        rcheck(S, 's_length_' + t, lambda i, o: [('abs', REq(o[0][0].r, rabs(i[0][0])))], mode='real', timeout=tm, bounds='all reals')
+        rcheck(S, 's_distance_' + t, lambda i, o: [('abs-difference', REq(o[0][0].r, rabs(i[0][0] - i[0][1])))], mode='real', timeout=tm, bounds='all reals')
+        rcheck(S, 's_length2_' + t, lambda i, o: [('square', REq(o[0][0].r, i[0][0] * i[0][0]))], mode='real', timeout=tm, bounds='all reals')
+        rcheck(S, 's_distance2_' + t, lambda i, o: [('square-difference', REq(o[0][0].r, (i[0][0] - i[0][1]) * (i[0][0] - i[0][1])))], mode='real', timeout=tm, bounds='all reals')
+        rcheck(S, 's_faceforward_' + t, lambda i, o: [('decision', REq(o[0][0].r, z3.If(i[2][0] * i[1][0] < 0, i[0][0], -i[0][0])))], mode='real', timeout=tm, bounds='all reals')
+        rcheck(S, 's_reflect_' + t, lambda i, o: [('formula', REq(o[0][0].r, i[0][0] - 2 * (i[1][0] * i[0][0]) * i[1][0]))], mode='real', timeout=tm, bounds='all reals')
         def kk(i): d = i[1][0] * i[0][0]; return 1 - i[2][0] * i[2][0] * (1 - d * d)
         # in one dimension unit I, N are +-1, so k = 1 and the refracted ray is -N
-        S.check_fn(U, 's_refract_' + t, lambda i, o: [('transmitted', REq(o[0][0].r, -i[1][0]))], lambda i: [i[0][0] * i[0][0] == 1, i[1][0] * i[1][0] == 1, i[2][0] > 0], mode='real', timeout=tm, bounds='I, N in {-1, 1}, eta > 0')
-        S.check_fn(U, 's_refract_' + t, lambda i, o: [('formula', REq((o[0][0].r - i[2][0] * i[0][0] + i[2][0] * i[1][0] * i[0][0] * i[1][0]) * (o[0][0].r - i[2][0] * i[0][0] + i[2][0] * i[1][0] * i[0][0] * i[1][0]), kk(i) * i[1][0] * i[1][0])),
+        rcheck(S, 's_refract_' + t, lambda i, o: [('transmitted', REq(o[0][0].r, -i[1][0]))], lambda i: [i[0][0] * i[0][0] == 1, i[1][0] * i[1][0] == 1, i[2][0] > 0], mode='real', timeout=tm, bounds='I, N in {-1, 1}, eta > 0')
+        rcheck(S, 's_refract_' + t, lambda i, o: [('formula', REq((o[0][0].r - i[2][0] * i[0][0] + i[2][0] * i[1][0] * i[0][0] * i[1][0]) * (o[0][0].r - i[2][0] * i[0][0] + i[2][0] * i[1][0] * i[0][0] * i[1][0]), kk(i) * i[1][0] * i[1][0])),
                                                       ('root-sign', RGoal('le', (o[0][0].r - i[2][0] * i[0][0] + i[2][0] * i[1][0] * i[0][0] * i[1][0]) * i[1][0], 0))],
                    lambda i: [i[2][0] > 0, kk(i) >= 0], mode='real', timeout=tm, name='c12.s_refract_%s.general' % t, bounds='all real I, N, eta > 0 with k >= 0')
     return run
@@ -327,7 +346,7 @@ def job_angle(t, L):
 def job_gtx3(t):
     def run(S):
         tm = S.cap(90, 300)
-        S.check_fn(U, 's_angle_' + t, lambda i, o: [('acos-of-product', REq(o[0][0].r, acos_of(i[0][0] * i[0][1])))], lambda i: [i[0][0] * i[0][0] == 1, i[0][1] * i[0][1] == 1], mode='real', timeout=tm,
+        rcheck(S, 's_angle_' + t, lambda i, o: [('acos-of-product', REq(o[0][0].r, acos_of(i[0][0] * i[0][1])))], lambda i: [i[0][0] * i[0][0] == 1, i[0][1] * i[0][1] == 1], mode='real', timeout=tm,
                    extra_hyps=acos_link(lambda i: i[0][0] * i[0][1]), bounds='x, y in {-1, 1}')
         unit2 = lambda i: [rdot(i[0], i[0]) == 1, rdot(i[1], i[1]) == 1]
         def oa3(i, o):
@@ -345,9 +364,9 @@ def job_gtx3(t):
         def cspec(i, o):
             a_, b_ = i; c_ = R(o[0]); c2 = R(o[1]); dt = rcross(a_, b_)
             return [('orthogonal-to-x', REq(rdot(c_, a_), 0)), ('orthogonal-to-y', REq(rdot(c_, b_), 0))] + [('anti-commutative%d' % k, REq(c_[k], -c2[k])) for k in range(3)] + [('determinant%d' % k, REq(c_[k], dt[k])) for k in range(3)]
-        S.check_fn(U, 'cross_' + t, cspec, mode='real', timeout=tm, bounds='all real vectors', mutant=lambda i, o: [('m', REq(o[0][1].r, i[0][0] * i[1][2] - i[0][2] * i[1][0]))])
-        S.check_fn(U, 'cross2_' + t, lambda i, o: [('determinant', REq(o[0][0].r, i[0][0] * i[1][1] - i[0][1] * i[1][0])), ('anti-commutative', REq(o[0][0].r, -o[0][1].r))], mode='real', timeout=tm, bounds='all real vectors')
-        S.check_fn(U, 'mixed_' + t, lambda i, o: [('determinant', REq(o[0][0].r, rdet3(i[0], i[1], i[2]))), ('cyclic', REq(o[0][0].r, rdot(i[0], rcross(i[1], i[2]))))], mode='real', timeout=tm, bounds='all real vectors',
+        rcheck(S, 'cross_' + t, cspec, mode='real', timeout=tm, bounds='all real vectors', mutant=lambda i, o: [('m', REq(o[0][1].r, i[0][0] * i[1][2] - i[0][2] * i[1][0]))])
+        rcheck(S, 'cross2_' + t, lambda i, o: [('determinant', REq(o[0][0].r, i[0][0] * i[1][1] - i[0][1] * i[1][0])), ('anti-commutative', REq(o[0][0].r, -o[0][1].r))], mode='real', timeout=tm, bounds='all real vectors')
+        rcheck(S, 'mixed_' + t, lambda i, o: [('determinant', REq(o[0][0].r, rdet3(i[0], i[1], i[2]))), ('cyclic', REq(o[0][0].r, rdot(i[0], rcross(i[1], i[2]))))], mode='real', timeout=tm, bounds='all real vectors',
                    mutant=lambda i, o: [('m', REq(o[0][0].r, rdet3(i[1], i[0], i[2])))])
         # norms
         def nspec(i, o):
@@ -355,13 +374,13 @@ def job_gtx3(t):
             return [('l1-between', REq(r[0], sum(rabs(x) for x in d))), ('l1', REq(r[1], sum(rabs(x) for x in a_))),
                     ('l2-between-nonneg', RGoal('ge', r[2], 0)), ('l2-between-square', REq(r[2] * r[2], rdot(d, d))), ('l2-nonneg', RGoal('ge', r[3], 0)), ('l2-square', REq(r[3] * r[3], rdot(a_, a_))),
                     ('lmax-between', REq(r[4], rmax([rabs(x) for x in d]))), ('lmax', REq(r[5], rmax([rabs(x) for x in a_])))]
-        S.check_fn(U, 'norms_' + t, nspec, mode='real', timeout=tm, bounds='all real vec3', mutant=lambda i, o: [('m', REq(o[0][5].r, rmax([rabs(x) for x in i[0][:2]])))])
+        rcheck(S, 'norms_' + t, nspec, mode='real', timeout=tm, bounds='all real vec3', mutant=lambda i, o: [('m', REq(o[0][5].r, rmax([rabs(x) for x in i[0][:2]])))])
         for n in (1, 2, 3):
             def lx(i, o, n=n):
                 a_, b_ = i[0], i[1]; r = R(o[0]); pw = lambda x: x if n == 1 else (x * x if n == 2 else x * x * x)
                 return [('between-nonneg', RGoal('ge', r[0], 0)), ('between-power', REq(pw(r[0]), sum(pw(rabs(q - p)) for p, q in zip(a_, b_)))), ('nonneg', RGoal('ge', r[1], 0)), ('power', REq(pw(r[1]), sum(pw(rabs(p)) for p in a_)))]
             ins = [[z3.Real('a%d' % k) for k in range(3)], [z3.Real('b%d' % k) for k in range(3)], [z3.BitVecVal(n, 32)]]
-            S.check_fn(U, 'lxnorm_' + t, lx, mode='real', timeout=tm, ins=ins, extra_hyps=pow_axioms, name='c12.lxnorm_%s.depth%d' % (t, n), bounds='all real vec3, Depth = %d' % n, mandatory=(n < 3))
+            rcheck(S, 'lxnorm_' + t, lx, mode='real', timeout=tm, ins=ins, extra_hyps=pow_axioms, name='c12.lxnorm_%s.depth%d' % (t, n), bounds='all real vec3, Depth = %d' % n, mandatory=(n < 3))
         # orthonormalize(x, y): unit y
         def ov(i, o):
             x, y = i; r = R(o[0])
@@ -394,7 +413,7 @@ def job_gtx3(t):
             def cp(i, o, L=L):
                 p, a_, b_ = i; ab = rsub(b_, a_); tt = rdot(rsub(p, a_), ab) / rdot(ab, ab); tc = z3.If(tt <= 0, z3.RealVal(0), z3.If(tt >= 1, z3.RealVal(1), tt))
                 return [('clamped-projection%d' % k, REq(o[0][k].r, a_[k] + tc * ab[k])) for k in range(L)]
-            S.check_fn(U, nm + t, cp, lambda i: [rdot(rsub(i[2], i[1]), rsub(i[2], i[1])) > 0], mode='real', timeout=tm, bounds='all real point, a != b',
+            rcheck(S, nm + t, cp, lambda i: [rdot(rsub(i[2], i[1]), rsub(i[2], i[1])) > 0], mode='real', timeout=tm, bounds='all real point, a != b',
                        mutant=lambda i, o: [('m', REq(o[0][0].r, i[1][0] + (rdot(rsub(i[0], i[1]), rsub(i[2], i[1])) / rdot(rsub(i[2], i[1]), rsub(i[2], i[1]))) * (i[2][0] - i[1][0])))])
     return run
 def job_ortho_m3(t):
